@@ -66,7 +66,10 @@ static size_t
 xstrlcpy(char *restrict dst, const char *src, size_t dsz)
 {
 	size_t ssz = strlen(src);
-	if (ssz > dsz) {
+	if (UNLIKELY(!dsz)) {
+		return 0U;
+	} else if (ssz >= dsz) {
+		/* leave room for the terminator */
 		ssz = dsz - 1U;
 	}
 	memcpy(dst, src, ssz);
